@@ -144,7 +144,7 @@ def run(ctx):
             if m:
                 accepted.add(int(m.group(1)))
                 continue
-            m = re.match(r'<<"REJECT", (\d+), (.*)>>$', line)
+            m = re.match(r'<<"REJECT", (\d+), (.*)', line, re.S)
             if m:
                 rejected[int(m.group(1))] = m.group(2)
     for rid, why in sorted(rejected.items()):
